@@ -44,7 +44,7 @@ func (S06) Info() scen.Info {
 			"goroutine scheduling":  "stub: seeded one-at-a-time scheduler (a second client loads another block while the fault is in flight)",
 		},
 		QuickUnits: 240, ThoroughUnits: 12000, QuickSecs: 60, ThoroughSecs: 1200,
-		ProbeKeys: []string{"probe.decode_failed_then_drained", "probe.error_at_eof_position", "probe.hash_collision_short_digest", "probe.late_error_after_complete_block", "probe.second_client_interleaved", "probe.hashmismatch_precedence_over_decode_error"},
+		ProbeKeys: []string{"probe.decode_failed_then_drained", "probe.error_at_eof_position", "probe.hash_collision_short_digest", "probe.late_error_after_complete_block", "probe.second_client_interleaved", "probe.hashmismatch_precedence_over_decode_error", "probe.reifier_loads_through_given_linksystem"},
 		EventsKey: "events",
 	}
 }
@@ -199,6 +199,27 @@ func (S06) RunTape(t *sim.Tape, st *sim.Stats, keepLog bool) *sim.Outcome {
 		be.name, codec.Name, lp.Prefix, len(B), kindNames[kind], pos, bit, ext, sticky, withData, pos2, chunkMode, eofWith, client2))
 	s.Log.Add("VALUE " + V.String())
 
+	// An ADL-style NodeReifier: it is handed a *LinkSystem by the load that calls it and, like a
+	// multi-block ADL, loads a further block through THAT link system. Storage answers with another
+	// block's bytes; nobody declared storage trusted, so every one of those loads must fail.
+	inReifier := false
+	if t.Bool("cfg.reifier") && L2.Binary() != L.Binary() {
+		lsys.NodeReifier = func(lc linking.LinkContext, n datamodel.Node, ls *linking.LinkSystem) (datamodel.Node, error) {
+			if inReifier || s.Cur() != 0 {
+				return n, nil
+			}
+			inReifier = true
+			defer func() { inReifier = false }()
+			st.Inc("probe.reifier_loads_through_given_linksystem")
+			for fn := 0; fn < 4; fn++ {
+				if res := doLoad(ls, fn, L2); res.err == nil && res.pan == "" {
+					o.Fail("unverified-data-returned", codec.Name+" "+fnNames[fn]+" via-reifier-linksystem", "%s through the *LinkSystem a NodeReifier was handed returned data for link %s although storage delivered another block's bytes (TrustedStorage was never set by the application)", fnNames[fn], L2)
+				}
+			}
+			return n, nil
+		}
+	}
+
 	var outcomes [4]string
 	offsets := map[int]bool{}
 	info := &baseInfo{LenB: len(B), Codec: codec.Name}
@@ -206,6 +227,9 @@ func (S06) RunTape(t *sim.Tape, st *sim.Stats, keepLog bool) *sim.Outcome {
 
 	if kind <= 7 {
 		seam.NextRead = func(l datamodel.Link) *simstore.ReadFault {
+			if s.Cur() == 0 && inReifier && l.Binary() == L2.Binary() {
+				return &simstore.ReadFault{Kind: "subst", Subst: B, Err2At: -1, Tag: 2}
+			}
 			if s.Cur() == 0 && l.Binary() == L.Binary() {
 				f := mkFault()
 				f.Tag = 1
